@@ -226,8 +226,25 @@ fn case<S: Scheme>(ctx: &mut Ctx, rng: &mut ChaCha20Rng) {
     }
 }
 
+/// PST13 keys with hundreds of variables (one G2 element each): serialized keys beyond 64 KiB.
+fn pst13_wide_key(ctx: &mut Ctx, idx: u64, rng: &mut ChaCha20Rng) {
+    use crate::schemes::{Cfg, Pst13S, E381};
+    type S = Pst13S<E381>;
+    let nv = if idx == 0 { 350 } else { 700 };
+    let cfg = Cfg { max_degree: 1, num_vars: Some(nv), supported_degree: 1, supported_hiding: 1, enforced: None };
+    let desc = json!({"num_vars": nv, "max_degree": 1});
+    let w = match make_world::<S>(&cfg, rng) {
+        Ok(w) => w,
+        Err((st, o)) => return ctx.violated("honest-pipeline-refused", &st, desc, json!({"outcome": o.json()})),
+    };
+    let _ = roundtrip::<VkOf<S>>(ctx, "verifier-key", &w.vk, &desc, rng);
+    let _ = roundtrip::<CkOf<S>>(ctx, "committer-key", &w.ck, &desc, rng);
+    let _ = roundtrip::<PpOf<S>>(ctx, "universal-params", &w.pp, &desc, rng);
+}
+
 pub fn run(ctx: &mut Ctx) {
     crate::schemes::set_custom_params(true);
+    ctx.run_cases("pst13/wide-key", 2, |ctx, i, rng| pst13_wide_key(ctx, i, rng));
     for_each_scheme!(ctx, S, {
         let n = ctx.n(60, 1200) / <S as Scheme>::WEIGHT.max(1);
         ctx.run_cases(<S as Scheme>::NAME, n.max(4), |ctx, _i, rng| case::<S>(ctx, rng));
